@@ -199,3 +199,45 @@ Proof. intros s e; destruct s; destruct e; vm_compute; reflexivity. Qed.
 
 Lemma rfc_tables_agree_all : tables_agree = true.
 Proof. vm_compute. reflexivity. Qed.
+
+(* ------------------------------------------------------------ 14. the two packet -> event mappings agree *)
+
+Lemma code_of_range code :
+  (code = 1 \/ code = 2 \/ code = 3 \/ code = 4 \/ code = 5 \/ code = 6 \/ code = 7 \/ code = 8 \/
+   code = 9 \/ code = 10 \/ code = 11) \/ ((code < 1 \/ code > 11) /\ code_of code = KUnknown).
+Proof.
+  destruct (Z_lt_dec code 1) as [L|L]; [right|].
+  { split; [auto|]. unfold code_of.
+    repeat match goal with |- context [?a =? ?b] => destruct (Z.eqb_spec a b); [lia|] end. reflexivity. }
+  destruct (Z_lt_dec 11 code) as [G|G]; [right|left; lia].
+  split; [lia|]. unfold code_of.
+  repeat match goal with |- context [?a =? ?b] => destruct (Z.eqb_spec a b); [lia|] end. reflexivity.
+Qed.
+
+Lemma classify_agree c f code id k data :
+  verdict_of (classify c f (EInput code id k data)) =
+  packet_event (lcp c) (st_eqb (st f) Opened) code (id =? lastReq f)
+               (negb (is_malformed k)) (is_good k) (dlen_of data >=? 4).
+Proof.
+  destruct (code_of_range code) as [H|[H U]].
+  - repeat (destruct H as [->|H]); try subst code; unfold classify, packet_event; cbn;
+      destruct (lcp c); cbn; try destruct k; cbn; try destruct (id =? lastReq f); cbn;
+      try destruct (st_eqb (st f) Opened); cbn; try destruct (dlen_of data >=? 4); reflexivity.
+  - unfold classify, packet_event. rewrite U.
+    replace ((1 <=? code) && (code <=? 7)) with false by (symmetry; apply andb_false_iff; destruct H; [left; apply Z.leb_gt|right; apply Z.leb_gt]; lia).
+    replace ((8 <=? code) && (code <=? 11)) with false by (symmetry; apply andb_false_iff; destruct H; [left; apply Z.leb_gt|right; apply Z.leb_gt]; lia).
+    cbn. rewrite andb_false_r. reflexivity.
+Qed.
+
+(* where the two readings that the RFC leaves to the implementer matter *)
+Lemma reading_cells :
+  (* A: Code-Reject read as RXJ- instead of RXJ+ makes a difference in every state with the link up *)
+  (forall s, s <> Initial -> s <> Starting -> rfc1661 s RXJp <> rfc1661 s RXJm) /\
+  (* B: Protocol-Reject outside Opened discarded instead of RXJ+ makes a difference in Ack-Rcvd only *)
+  (forall s, s <> Initial -> s <> Starting -> s <> AckRcvd -> rfc1661 s RXJp = Some ([], s)) /\
+  rfc1661 AckRcvd RXJp = Some ([], ReqSent).
+Proof.
+  repeat split.
+  - intros s H1 H2; destruct s; try contradiction; cbn; discriminate.
+  - intros s H1 H2 H3; destruct s; try contradiction; reflexivity.
+Qed.
